@@ -139,6 +139,9 @@ class Registry:
         self.attr_models = {}     # (pytype, attrname) -> model(interp, obj)
         self.use_opaque = True
         self.sym_methods = {}     # Sym subclass -> method model(interp, obj, name, args, kwargs)
+        self.sym_attrs = {}       # Sym subclass -> attribute model(interp, obj, name)
+        self.sym_binops = []      # models for operators on custom symbolic objects
+        self.ctor_models = {}     # class -> assumed constructor model(interp, args, kwargs)
 
     def model(self, f):
         def deco(fn):
@@ -324,11 +327,12 @@ class Interp:
             if any(isinstance(a, (SBytes, SStr)) and a.items is None for a in args):
                 return self.call_opaque(f, oq, args)
         if self._has_contract(f):
-            c = self.reg.contracts[f]
-            r = c.apply(self, f, args, kwargs)
-            if r is not NotImplemented:
-                self.called_contracts.add(c.target)
-                return r
+            cs = self.reg.contracts[f]
+            for c in (cs if isinstance(cs, list) else [cs]):
+                r = c.apply(self, f, args, kwargs)
+                if r is not NotImplemented:
+                    self.called_contracts.add(c.key)
+                    return r
         if f is not self.top and is_concrete(args) and is_concrete(kwargs) and f.__module__ \
                 and not f.__module__.startswith('contracts') and not getattr(f, '_pyvc_no_native', False):
             self.native_calls.add(f.__qualname__)
@@ -391,6 +395,9 @@ class Interp:
         m = self.reg.models.get(cls)
         if m is not None:
             return m(self, args, kwargs)
+        cm = self.reg.ctor_models.get(cls)
+        if cm is not None and not (is_concrete(args) and is_concrete(kwargs)) and not (self.top is not None and getattr(self.top, '__qualname__', '').startswith(cls.__name__ + '.__init__')):
+            return cm(self, args, kwargs)
         if cls in (int, bool, bytes, str, list, tuple, dict, set, float, bytearray, range, frozenset, type, object,
                    enumerate, zip, reversed, map, filter, isinstance):
             return models.call_builtin_type(self, cls, args, kwargs)
@@ -448,6 +455,12 @@ class Interp:
                 return am(self, obj)
             raise Unsupported('attribute %s of opaque %s' % (name, obj.name))
         if isinstance(obj, Sym):
+            for k, fn in self.reg.sym_attrs.items():
+                if isinstance(obj, k):
+                    try:
+                        return fn(self, obj, name)
+                    except Unsupported:
+                        break
             return ModelMethod(name, obj)
         # native object
         t = type(obj)
